@@ -18,9 +18,11 @@
 EXTENDS Integers, Sequences, FiniteSets, TLC, Json
 
 CONSTANTS Batches,        \* set of file sequences (every order of every batch explored)
-          Need, NProcs, SharedPerChunk, Export
+          Need, NProcs, SharedPerChunk, Export,
+          OptSets,        \* command-line option values <<distribution_mc, distribution_fn>> explored
+          SwapOptions     \* FALSE (design): the writer receives the options as given; TRUE: negative configuration
 
-VARIABLES Files, NProc   \* chosen in Init, constant along a behaviour
+VARIABLES Files, NProc, opts   \* chosen in Init, constant along a behaviour
 
 NTasks    == Len(Files)
 ChunkSize == IF NTasks \div NProc >= 1 THEN NTasks \div NProc ELSE 1
@@ -32,11 +34,13 @@ Workers   == 1..NWorkers
 VARIABLES nextChunk,   \* index of the next chunk on the queue
           cur,         \* cur[w] = <<chunk index, position>> or <<0, 0>> when idle
           chunkN,      \* chunkN[c] = FFT length stored in the settings object of chunk c
-          out          \* out[f] = FFT length the file was processed with (0 = not yet written)
-vars == <<Files, NProc, nextChunk, cur, chunkN, out>>
+          out,         \* out[f] = FFT length the file was processed with (0 = not yet written)
+          wrote        \* wrote[f] = the <<distribution_mc, distribution_fn>> the result of f was written with
+vars == <<Files, NProc, opts, nextChunk, cur, chunkN, out, wrote>>
 
 FileSet == { Files[i] : i \in 1..NTasks }
-Init == /\ Files \in Batches /\ NProc \in NProcs
+Init == /\ Files \in Batches /\ NProc \in NProcs /\ opts \in OptSets
+        /\ wrote = [f \in FileSet |-> <<>>]
         /\ nextChunk = 1
         /\ cur = [w \in Workers |-> <<0, 0>>]
         /\ chunkN = [c \in 1..NChunks |-> 0]
@@ -45,7 +49,7 @@ Init == /\ Files \in Batches /\ NProc \in NProcs
 Take(w) == /\ cur[w][1] = 0 /\ nextChunk <= NChunks
            /\ cur' = [cur EXCEPT ![w] = <<nextChunk, 1>>]
            /\ nextChunk' = nextChunk + 1
-           /\ UNCHANGED <<chunkN, out, Files, NProc>>
+           /\ UNCHANGED <<chunkN, out, wrote, Files, NProc, opts>>
 
 ProcessNext(w) ==
     LET c == cur[w][1]
@@ -54,9 +58,10 @@ ProcessNext(w) ==
         /\ LET f == Chunk(c)[k]
                n == IF SharedPerChunk /\ chunkN[c] > Need[f] THEN chunkN[c] ELSE Need[f]
            IN  /\ out' = [out EXCEPT ![f] = n]
+               /\ wrote' = [wrote EXCEPT ![f] = IF SwapOptions THEN <<opts[2], opts[1]>> ELSE opts]
                /\ chunkN' = [chunkN EXCEPT ![c] = IF SharedPerChunk THEN n ELSE @]
         /\ cur' = [cur EXCEPT ![w] = IF k < Len(Chunk(c)) THEN <<c, k + 1>> ELSE <<0, 0>>]
-        /\ UNCHANGED <<nextChunk, Files, NProc>>
+        /\ UNCHANGED <<nextChunk, Files, NProc, opts>>
 
 TakeAny == \E w \in Workers : Take(w)
 ProcessAny == \E w \in Workers : ProcessNext(w)
@@ -66,12 +71,14 @@ Spec == Init /\ [][Next]_vars /\ \A w \in 1..MaxProc : WF_vars(w \in Workers /\ 
 
 AllWritten  == \A f \in FileSet : out[f] # 0
 Independent == \A f \in FileSet : out[f] # 0 => out[f] = Need[f]
+\* every result is written with the option values of the command line, each in its own place
+OptionsReachWriter == \A f \in FileSet : out[f] # 0 => wrote[f] = opts
 Terminates  == <>AllWritten
 \* every file is processed exactly once, by the chunk that contains it
 ChunksPartition == \A i \in 1..NTasks : \E c \in 1..NChunks : \E k \in 1..Len(Chunk(c)) :
                       Chunk(c)[k] = Files[i] /\ (c - 1) * ChunkSize + k = i
 ExportDone == (Export /\ AllWritten /\ \A w \in Workers : cur[w][1] = 0) =>
-    PrintT(ToJson([files |-> Files, nproc |-> NProc, chunksize |-> ChunkSize, out |-> [i \in 1..NTasks |-> out[Files[i]]]]))
+    PrintT(ToJson([files |-> Files, nproc |-> NProc, opts |-> opts, chunksize |-> ChunkSize, out |-> [i \in 1..NTasks |-> out[Files[i]]]]))
 
 \* model values: every order of every sub-batch (with at least 2 files) of a pool of files
 RECURSIVE PermsOf(_)
@@ -81,5 +88,7 @@ Pool3 == {"big1", "small1", "small2"}
 Pool4 == {"big1", "big2", "small1", "small2"}
 Batches3 == AllBatches(Pool3)
 Batches4 == AllBatches(Pool4)
+OptsAll == { <<"lognormal", "lognormal">>, <<"normal", "lognormal">>, <<"lognormal", "normal">>, <<"normal", "normal">> }
+OptsDefault == { <<"lognormal", "lognormal">> }
 NeedDef == [f \in {"big1", "big2", "small1", "small2", "small3"} |-> IF f \in {"big1", "big2"} THEN 2 ELSE 1]
 =============================================================================
